@@ -53,7 +53,7 @@ CONF = {
         inv=['InvC07', 'InvViews'],
         mc=[('base', ['Submit', 'RemoveApp', 'SetPrio', 'Down', 'Up', 'RemoveServer', 'AddServer', 'Move'], None),
             ('affinity', ['Submit', 'SetPrio', 'RemoveServer', 'Down'], None)],
-        gen=['base', 'affinity', 'lease', 'topology'], weights=['pressure', 'pressure', 'lease'],
+        gen=['base', 'affinity', 'lease', 'topology', 'queue'], weights=['pressure', 'pressure', 'lease'], randscn=2,
         rule='a history counts when a cycle displaces an instance that was running on an up server and was entitled to stay (so the justification clause is exercised); distinct = distinct environment histories'),
     'C08': dict(
         inv=['InvC08', 'InvViews'],
